@@ -286,10 +286,19 @@ func (g *FuncGen) frameStore(st *State, a *Addr, what string, pos token.Pos) {
 			need = true
 		}
 	}
+	goal := fmt.Sprintf("(>= %s %s)", a.ref, g.alloc0)
 	if !need {
-		return
+		if len(g.ownFootprint) == 0 || a.idx != "" {
+			return
+		}
+		// inside the modifies set, but the contract restricts writes to its footprint objects
+		parts := []string{goal}
+		for _, f := range g.ownFootprint {
+			parts = append(parts, fmt.Sprintf("(= %s %s)", a.ref, f))
+		}
+		goal = "(or " + strings.Join(parts, " ") + ")"
 	}
-	g.oblige("frame.store", "", st.reach, fmt.Sprintf("(>= %s %s)", a.ref, g.alloc0), "store outside modifies set must target a fresh object: "+what+" ("+strings.Join(names, ",")+")", pos)
+	g.oblige("frame.store", "", st.reach, goal, "store must target the contract's footprint or a fresh object: "+what+" ("+strings.Join(names, ",")+")", pos)
 }
 
 func (g *FuncGen) execUnOp(x *ssa.UnOp, st *State) error {
@@ -638,6 +647,7 @@ func (g *FuncGen) execMapUpdate(x *ssa.MapUpdate, st *State) error {
 	g.assert(fmt.Sprintf("(= %s (store %s %s (store (select %s %s) %s true)))", nd, curD, m, curD, m, k))
 	g.assert(fmt.Sprintf("(= %s (store %s %s (store (select %s %s) %s %s)))", nv, curV, m, curV, m, k, v))
 	g.assert(fmt.Sprintf("(= %s (store %s %s (ite (select (select %s %s) %s) (select %s %s) (+ (select %s %s) 1))))", nl, curL, m, curD, m, k, curL, m, curL, m))
+	g.assert(fmt.Sprintf("(>= (select %s %s) 1)", nl, m))
 	st.heap = g.heapSet(g.heapSet(g.heapSet(st.heap, md.Name, nd), mv.Name, nv), ml.Name, nl)
 	return nil
 }
